@@ -78,6 +78,14 @@ func (pr *Program) verifyFunction(fn *ssa.Function) (c *Ctx) {
 			}
 			c.oblige(fr.oname("ensures", clauseLabel(en, i)), "ensures", tags, r.reach, g, en.Line, en.Text)
 		}
+		if fc.Cost != nil {
+			bound := fr.evalExpr(fc.Cost, env).C[0]
+			cost := r.st.cost
+			if cost == "" {
+				cost = "0"
+			}
+			c.oblige(fr.oname("cost", "bound"), "cost", []string{"C09"}, r.reach, "(<= "+cost+" "+bound+")", fc.Line, "ghost step count is within the declared bound")
+		}
 		fr.frameObligations(r, ri)
 	}
 	if len(fr.rets) > 0 {
